@@ -30,6 +30,10 @@ import (
 //   runw <k> <a,b> <c,d>            Run(a,b) is held inside Execute of k until Run(c,d) is parked waiting; then k proceeds
 //   runev <g> <keys> <k=v,..|->     Run(g) held at the start of Execute(g) while EvictWithCleanup(keys, inputs := ...) is entered concurrently
 //   runp <k> <r>...                 Run(k, r...) with Execute of k held until the other queries' leaders are parked in acquire
+//   runel <g> <keys|-> <k=v,..|-> <a,b|c|..>  Run(g) held at the start of Execute(g); EvictWithCleanup(keys, inputs := ...) entered
+//                                   and parked at the executor's lock; THEN one late Run per group is started and left to
+//                                   reach its blocking point behind the pending eviction; then g proceeds. Linearisation:
+//                                   Run(g); eviction; the late Runs. Answer: "<Run(g): r x c m> ;; <late Runs: r x c m keys>"
 //   dump                            task table (deps / callers / state)
 //   permits                         can all p permits be acquired?
 //
@@ -174,6 +178,8 @@ type incrEngine struct {
 	// hooks of runGroup used by runev: after the Runs were started / after they all returned
 	postStart func()
 	preAnswer func() string
+	// render, if non-nil, replaces the rendering of runGroup's answer (used by runel)
+	render func(outs []*incrRunOut, before map[int]int) string
 	// number of Runs of the current runGroup call that have returned
 	runsReturned atomic.Int32
 }
@@ -399,9 +405,51 @@ func (e *incrEngine) runGroup(groups [][]int, withFlags bool, coarse bool, seque
 			return bad
 		}
 	}
-	if coarse {
-		return e.coarseAnswer(outs, before)
+	if e.render != nil {
+		return e.render(outs, before)
 	}
+	if coarse {
+		return e.coarseAnswer(outs, before, nil, true)
+	}
+	return e.detailedAnswer(outs, before, nil, withFlags, true)
+}
+
+// countsNow copies the execution counters.
+func (e *incrEngine) countsNow() map[int]int {
+	m := map[int]int{}
+	e.w.mu.Lock()
+	for k, c := range e.w.count {
+		m[k] = c
+	}
+	e.w.mu.Unlock()
+	return m
+}
+
+// incrCountDiff renders the executions between two snapshots of the counters (after == nil: now).
+func (e *incrEngine) countDiff(before, after map[int]int) string {
+	if after == nil {
+		after = e.countsNow()
+	}
+	var xk []int
+	for k, c := range after {
+		if c != before[k] {
+			xk = append(xk, k)
+		}
+	}
+	sort.Ints(xk)
+	var xparts []string
+	for _, k := range xk {
+		xparts = append(xparts, fmt.Sprintf("%d:%d", k, after[k]-before[k]))
+	}
+	if len(xparts) == 0 {
+		return "-"
+	}
+	return strings.Join(xparts, ",")
+}
+
+// detailedAnswer renders results, executions (between the snapshots before and after; after == nil:
+// now), Changed observations and, if keys, the memoized keys.
+func (e *incrEngine) detailedAnswer(outs []*incrRunOut, before, after map[int]int, withFlags, keys bool) string {
 	var rparts []string
 	for _, o := range outs {
 		if o.paniced != "" {
@@ -429,20 +477,6 @@ func (e *incrEngine) runGroup(groups [][]int, withFlags bool, coarse bool, seque
 		}
 		rparts = append(rparts, strings.Join(xs, ","))
 	}
-	// execution counts
-	e.w.mu.Lock()
-	var xk []int
-	for k, c := range e.w.count {
-		if c != before[k] {
-			xk = append(xk, k)
-		}
-	}
-	sort.Ints(xk)
-	var xparts []string
-	for _, k := range xk {
-		xparts = append(xparts, fmt.Sprintf("%d:%d", k, e.w.count[k]-before[k]))
-	}
-	e.w.mu.Unlock()
 	// Changed flags: per key the number of runs that saw true; keys for which one run saw both
 	trueRuns := map[int]int{}
 	var mixed []int
@@ -474,7 +508,11 @@ func (e *incrEngine) runGroup(groups [][]int, withFlags bool, coarse bool, seque
 		}
 		return strings.Join(xs, sep)
 	}
-	return fmt.Sprintf("r=%s x=%s c=%s m=%s %s", join(rparts, "|"), join(xparts, ","), join(cparts, ","), incrJoin(mixed), e.keysField())
+	ans := fmt.Sprintf("r=%s x=%s c=%s m=%s", join(rparts, "|"), e.countDiff(before, after), join(cparts, ","), incrJoin(mixed))
+	if keys {
+		ans += " " + e.keysField()
+	}
+	return ans
 }
 
 // seqDefs reports whether every Resolve call of every defined query has exactly one key.
@@ -508,7 +546,7 @@ func (e *incrEngine) staticEdge(a, b int) bool {
 // (failed), whether every reported cycle is a closed walk of the defined graph, the execution
 // counts and the memoized keys; for a run that failed with a panic only that it did and
 // whether the blamed query is one that panics.
-func (e *incrEngine) coarseAnswer(outs []*incrRunOut, before map[int]int) string {
+func (e *incrEngine) coarseAnswer(outs []*incrRunOut, before, after map[int]int, keys bool) string {
 	cycOK := true
 	var seenCycles []string
 	checkCycle := func(err error) {
@@ -572,28 +610,15 @@ func (e *incrEngine) coarseAnswer(outs []*incrRunOut, before map[int]int) string
 		}
 		rparts = append(rparts, strings.Join(xs, ","))
 	}
-	e.w.mu.Lock()
-	var xk []int
-	for k, c := range e.w.count {
-		if c != before[k] {
-			xk = append(xk, k)
-		}
-	}
-	sort.Ints(xk)
-	var xparts []string
-	for _, k := range xk {
-		xparts = append(xparts, fmt.Sprintf("%d:%d", k, e.w.count[k]-before[k]))
-	}
-	e.w.mu.Unlock()
-	x := "-"
-	if len(xparts) > 0 {
-		x = strings.Join(xparts, ",")
-	}
+	x := e.countDiff(before, after)
 	cyc := "ok"
 	if !cycOK {
 		cyc = "bad"
 	}
-	ans := fmt.Sprintf("r=%s cyc=%s x=%s %s", strings.Join(rparts, "|"), cyc, x, e.keysField())
+	ans := fmt.Sprintf("r=%s cyc=%s x=%s", strings.Join(rparts, "|"), cyc, x)
+	if keys {
+		ans += " " + e.keysField()
+	}
 	if len(seenCycles) > 0 {
 		// the cycles actually reported depend on the schedule: they go behind " ~ " where the Lean
 		// oracle checks them but the model is not asked to predict them
@@ -760,6 +785,18 @@ func incrParkedEvictions() int {
 	c := 0
 	for _, g := range incrGoroutines() {
 		if strings.Contains(g, "(*Executor).EvictWithCleanup") && incrIsParkedState(incrGoroutineState(g)) {
+			c++
+		}
+	}
+	return c
+}
+
+// incrParkedLateRuns counts the goroutines that are parked inside incremental.Run but not inside a
+// query: blocked at the executor's lock or at the semaphore of the root task.
+func incrParkedLateRuns() int {
+	c := 0
+	for _, g := range incrGoroutines() {
+		if strings.Contains(g, "incremental.Run[") && !strings.Contains(g, "engines.incrQ.Execute") && incrIsParkedState(incrGoroutineState(g)) {
 			c++
 		}
 	}
@@ -1027,6 +1064,164 @@ func (e *incrEngine) Exec(op string) string {
 		}
 		ans := e.runGroup([][]int{{g}}, true, false, nil)
 		e.postStart, e.preAnswer = nil, nil
+		openGate()
+		e.w.mu.Lock()
+		e.w.gateCh = nil
+		e.w.mu.Unlock()
+		return ans
+	case "runel":
+		// runel <g> <evict keys|-> <k=v,..|-> <late groups>: three parties. Run(g) is held at the start
+		// of Execute(g); EvictWithCleanup(keys, cleanup = the input changes) is entered and parked at
+		// the executor's exclusive lock; only then one Run per late group is started and given time to
+		// reach its blocking point (behind the pending eviction); then g proceeds. A pending writer
+		// holds new readers off, so the history is Run(g); eviction; late Runs.
+		if len(w) != 5 {
+			return "bad-op"
+		}
+		g, err := strconv.Atoi(w[1])
+		evk, ok := incrInts(w[2])
+		if err != nil || !ok || g < 0 || e.w.nodes[g] == nil {
+			return "bad-op"
+		}
+		type change struct {
+			k int
+			v int64
+		}
+		var changes []change
+		if w[3] != "-" {
+			for _, kv := range strings.Split(w[3], ",") {
+				a, b, ok := strings.Cut(kv, "=")
+				k, err1 := strconv.Atoi(a)
+				v, err2 := strconv.ParseInt(b, 10, 64)
+				if !ok || err1 != nil || err2 != nil || k < 0 || v < 0 {
+					return "bad-op"
+				}
+				changes = append(changes, change{k, v})
+			}
+		}
+		groups := [][]int{{g}}
+		for _, gs := range strings.Split(w[4], "|") {
+			ks, ok := incrInts(gs)
+			if !ok || len(ks) == 0 {
+				return "bad-op"
+			}
+			for _, k := range ks {
+				if e.w.nodes[k] == nil {
+					return "bad-op"
+				}
+			}
+			groups = append(groups, ks)
+		}
+		nlate := len(groups) - 1
+		var keys []any
+		for _, k := range evk {
+			keys = append(keys, k)
+		}
+		e.w.mu.Lock()
+		e.w.gateKey = g
+		e.w.gateCh = make(chan struct{})
+		e.w.gateStarted = make(chan struct{}, 1)
+		gate, started := e.w.gateCh, e.w.gateStarted
+		e.w.mu.Unlock()
+		openGate := func() {
+			e.w.mu.Lock()
+			select {
+			case <-gate:
+			default:
+				close(gate)
+			}
+			e.w.mu.Unlock()
+		}
+		evDone := make(chan struct{})
+		isDone := func() bool {
+			select {
+			case <-evDone:
+				return true
+			default:
+				return false
+			}
+		}
+		// execution counters at the moment the eviction holds the exclusive lock: Run(g) has
+		// returned, no late Run has got past the lock
+		var mid map[int]int
+		var lateBase int
+		coarse := e.name == "incr_fail"
+		startEviction := func() {
+			// Run(g) is inside Execute(g) -- or has returned without executing g (g memoized)
+			gotStarted := false
+			incrWaitFor(incrWatchdog/2, func() bool {
+				select {
+				case <-started:
+					gotStarted = true
+				default:
+				}
+				return gotStarted || e.runsReturned.Load() > 0
+			})
+			if !gotStarted {
+				openGate() // nothing is held: a late Run that executes g must not wait for the gate
+			}
+			base := incrParkedEvictions()
+			entered := make(chan struct{})
+			go func() {
+				defer close(evDone)
+				defer func() { _ = recover() }()
+				close(entered)
+				e.ex.EvictWithCleanup(keys, func() {
+					e.w.mu.Lock()
+					for _, c := range changes {
+						e.w.env[c.k] = c.v
+					}
+					mid = map[int]int{}
+					for k, c := range e.w.count {
+						mid[k] = c
+					}
+					e.w.mu.Unlock()
+				})
+			}()
+			<-entered
+			// the eviction call is blocked at the lock (or has returned)
+			incrWaitFor(incrWatchdog/3, func() bool { return isDone() || incrParkedEvictions() > base })
+			lateBase = incrParkedLateRuns()
+		}
+		e.postStart = func() {
+			// every late Run has returned or is parked inside incremental.Run outside any query (at the
+			// executor's lock or at the semaphore)
+			incrWaitFor(incrWatchdog/3, func() bool {
+				return int(e.runsReturned.Load()) >= nlate || incrParkedLateRuns()-lateBase+int(e.runsReturned.Load()) >= nlate
+			})
+			openGate()
+		}
+		e.preAnswer = func() string {
+			if !incrWaitFor(incrWatchdog, isDone) {
+				return "hang evict"
+			}
+			return ""
+		}
+		e.render = func(outs []*incrRunOut, before map[int]int) string {
+			if mid == nil {
+				return "cleanup-not-run"
+			}
+			var a, b string
+			if coarse {
+				a, b = e.coarseAnswer(outs[:1], before, mid, false), e.coarseAnswer(outs[1:], mid, nil, true)
+			} else {
+				a, b = e.detailedAnswer(outs[:1], before, mid, true, false), e.detailedAnswer(outs[1:], mid, nil, false, true)
+			}
+			// schedule-dependent detail (after " ~ ") of both phases goes to the end
+			a0, at, _ := strings.Cut(a, " ~ ")
+			b0, bt, _ := strings.Cut(b, " ~ ")
+			ans := a0 + " ;; " + b0
+			if t := strings.Trim(at+";"+bt, ";"); t != "" {
+				ans += " ~ " + t
+			}
+			return ans
+		}
+		ans := e.runGroup(groups, false, false, func(i int) {
+			if i == 1 {
+				startEviction()
+			}
+		})
+		e.postStart, e.preAnswer, e.render = nil, nil, nil
 		openGate()
 		e.w.mu.Lock()
 		e.w.gateCh = nil
@@ -1347,6 +1542,8 @@ func (e *incrEngine) Gen(r *Rand, tier string) [][]string {
 		c = append(c, "run "+strings.Join(incrAll(n), " "), "dump")
 		cases = append(cases, c)
 	}
+	// after the older families: their cases stay the same for a given seed
+	cases = append(cases, incrRunelCases(r, tier, false)...)
 	return cases
 }
 
@@ -1488,6 +1685,162 @@ func incrParCase(r *Rand, n int, mask, panics uint64, p int) []string {
 	return c
 }
 
+// incrRunelCases: the three-party choreography `runel` (a Run in flight, an eviction pending behind it,
+// late Runs arriving behind the pending eviction). fail = cases for engine incr_fail (cyclic random
+// graphs, `permits` after every step, no panicking queries).
+//
+// directed: root T resolves d = 2..4 dependencies in ONE Resolve call (so that it gives up its permit
+// while it waits for them), parallelism 1..4, the evicted key is a dependency of T (memoized only by
+// the in-flight Run) / an unrelated memoized key / a key that is never memoized, and there are as
+// many late Runs as permits (sometimes one more or one fewer) asking for T again / an unrelated fresh
+// key / a memoized key / a mix.
+func incrRunelCases(r *Rand, tier string, fail bool) [][]string {
+	var cases [][]string
+	tail := func(c []string) []string {
+		if fail {
+			return append(c, "permits")
+		}
+		return c
+	}
+	for p := 1; p <= 4; p++ {
+		for d := 2; d <= 4; d++ {
+			for evKind := 0; evKind < 3; evKind++ {
+				for lateKind := 0; lateKind < 4; lateKind++ {
+					if tier != "thorough" && (p+d+evKind+lateKind)%2 == 1 && !(p <= 2 && d == 2) {
+						continue
+					}
+					T, U, V, F := d, d+1, d+2, d+3
+					c := []string{fmt.Sprintf("new %d", p)}
+					for k := 0; k < d; k++ {
+						c = append(c, fmt.Sprintf("def %d e", k))
+					}
+					deps := make([]int, d)
+					for k := range deps {
+						deps[k] = k
+					}
+					c = append(c, fmt.Sprintf("def %d - a%s", T, incrJoin(incrShuffle(r, deps))),
+						fmt.Sprintf("def %d e", U), fmt.Sprintf("def %d e", V), fmt.Sprintf("def %d e a%d", F, V))
+					c = tail(append(c, fmt.Sprintf("run %d", V)))
+					if d >= 3 && r.Chance(1, 3) {
+						c = tail(append(c, fmt.Sprintf("run %d", d-1))) // one dependency is memoized already
+					}
+					ev, ch := 0, fmt.Sprintf("0=%d", 1+r.Intn(5))
+					switch evKind {
+					case 1:
+						ev, ch = V, fmt.Sprintf("%d=%d", V, 1+r.Intn(5))
+					case 2:
+						ev, ch = U, "-"
+						if r.Chance(1, 2) {
+							ev = 99 // not even defined
+						}
+					}
+					nl := p
+					switch r.Intn(6) {
+					case 0:
+						nl = p + 1
+					case 1:
+						if p > 1 {
+							nl = p - 1
+						}
+					}
+					var late []string
+					for i := 0; i < nl; i++ {
+						k := []int{T, U, V, F}[lateKind]
+						if lateKind == 3 {
+							k = Pick(r, []int{T, U, V, F})
+						}
+						late = append(late, strconv.Itoa(k))
+					}
+					c = tail(append(c, fmt.Sprintf("runel %d %d %s %s", T, ev, ch, strings.Join(late, "|"))))
+					all := []int{}
+					for k := 0; k <= F; k++ {
+						all = append(all, k)
+					}
+					c = tail(append(c, "run "+strings.Join(incrIntsToStrs(incrShuffle(r, all)), " ")))
+					if !fail {
+						c = append(c, "dump")
+					}
+					cases = append(cases, c)
+				}
+			}
+		}
+	}
+	// random graphs
+	nr := 30
+	if tier == "thorough" {
+		nr = 800
+	}
+	for i := 0; i < nr; i++ {
+		n := 3 + r.Intn(5)
+		p := 1 + r.Intn(4)
+		var defs []string
+		if fail {
+			n = 3 + r.Intn(3)
+			mask := r.U64() & r.U64() & (1<<uint(n*n) - 1)
+			defs, _ = incrDigraphDefs(r, n, mask, false, 0)
+			// parallel class only (a Resolve call with two keys): the coarse answers are the ones
+			// the model of incr_fail predicts for concurrent Runs
+			multi := false
+			for _, d := range defs {
+				if strings.Contains(d, ",") {
+					multi = true
+				}
+			}
+			if !multi {
+				continue
+			}
+		} else {
+			pairs := n * (n - 1) / 2
+			mask := r.U64() & (1<<uint(pairs) - 1)
+			if r.Chance(1, 3) {
+				mask &= r.U64()
+			}
+			defs, _ = incrDagDefs(r, n, mask, true)
+		}
+		c := []string{fmt.Sprintf("new %d", p)}
+		c = append(c, defs...)
+		if r.Chance(1, 2) {
+			c = tail(append(c, "run "+strings.Join(incrIntsToStrs(incrRandRoots(r, n, 2)), " ")))
+		}
+		for j := 0; j < 1+r.Intn(3); j++ {
+			g := n - 1 - r.Intn((n+1)/2) // the larger keys have the dependencies
+			if r.Chance(2, 3) {
+				c = append(c, fmt.Sprintf("evict %d", g)) // make sure the in-flight Run has something to execute
+			}
+			ev := incrRandRoots(r, n+1, 2)
+			var ch []string
+			for _, k := range ev {
+				if r.Chance(1, 2) {
+					ch = append(ch, fmt.Sprintf("%d=%d", k, r.Intn(6)))
+				}
+			}
+			chs := "-"
+			if len(ch) > 0 {
+				chs = strings.Join(ch, ",")
+			}
+			nl := p
+			if r.Chance(1, 4) {
+				nl = 1 + r.Intn(p+1)
+			}
+			var late []string
+			for q := 0; q < nl; q++ {
+				late = append(late, incrJoin(incrRandRoots(r, n, 2)))
+			}
+			c = tail(append(c, fmt.Sprintf("runel %d %s %s %s", g, incrJoin(ev), chs, strings.Join(late, "|"))))
+		}
+		all := make([]int, n)
+		for k := range all {
+			all[k] = k
+		}
+		c = tail(append(c, "run "+strings.Join(incrIntsToStrs(incrShuffle(r, all)), " ")))
+		if !fail {
+			c = append(c, "dump")
+		}
+		cases = append(cases, c)
+	}
+	return cases
+}
+
 func (e *incrEngine) genFail(r *Rand, tier string) [][]string {
 	thorough := tier == "thorough"
 	var cases [][]string
@@ -1591,5 +1944,6 @@ func (e *incrEngine) genFail(r *Rand, tier string) [][]string {
 			cases = append(cases, c)
 		}
 	}
+	cases = append(cases, incrRunelCases(r, tier, true)...)
 	return cases
 }
